@@ -94,6 +94,8 @@ type heapEnv struct {
 	// epochMerge: an epoch created by joining paths with different epochs; a heap array first touched after
 	// the join is, path by path, the array of the incoming epoch (not an unrelated fresh array)
 	epochMerge map[string][]epochPart
+	// onSet, when set, sees every heap write (loop frame inference)
+	onSet func(name, term string)
 }
 
 type epochPart struct{ cond, epoch string }
@@ -128,6 +130,9 @@ func (h *heapEnv) epochSym(name, sort, epoch string) string {
 
 func (h *heapEnv) set(s *State, name, sort, term string) {
 	h.sorts[name] = sort
+	if h.onSet != nil {
+		h.onSet(name, term)
+	}
 	s.heap[name] = h.c.Let(name, sort, term)
 }
 
